@@ -275,31 +275,41 @@ Proof. intros s d m H; exact H. Qed.
 Lemma no_new_send_trans : forall a b c, no_new_send a b -> no_new_send b c -> no_new_send a c.
 Proof. intros a b c H1 H2 d m H. apply H1, H2, H. Qed.
 
+Lemma fire_tconn : forall c r er s, tconn (nd (fire c r er s)) = tconn (nd s).
+Proof. intros. unfold fire, emit. destruct c; reflexivity. Qed.
+
 Lemma ae_header_frame : forall e from t c s,
-  same_app (nd s) (nd (ae_header e from t c s)) /\ exc (ae_header e from t c s) = exc s /  no_new_send s (ae_header e from t c s) /\ tnow (ae_header e from t c s) = tnow s /  term (nd (ae_header e from t c s)) = N.max (term (nd s)) t /  role (nd (ae_header e from t c s)) = FOLLOWER /  tconn (nd (ae_header e from t c s)) = tconn (nd s).
+  same_app (nd s) (nd (ae_header e from t c s)) /\ exc (ae_header e from t c s) = exc s /\
+  no_new_send s (ae_header e from t c s) /\ tnow (ae_header e from t c s) = tnow s /\
+  term (nd (ae_header e from t c s)) = N.max (term (nd s)) t /\
+  role (nd (ae_header e from t c s)) = FOLLOWER /\
+  tconn (nd (ae_header e from t c s)) = tconn (nd s).
 Proof.
   intros e from t c s. unfold ae_header.
   set (s1 := upd _ s).
-  assert (H1 : same_app (nd s) (nd s1) /\ exc s1 = exc s /\ no_new_send s s1 /\ tnow s1 = tnow s /               term (nd s1) = term (nd s) /\ tconn (nd s1) = tconn (nd s)).
-  { subst s1. unfold upd, same_app. cbn. repeat split; auto. apply no_new_send_refl. }
+  assert (H1 : same_app (nd s) (nd s1) /\ exc s1 = exc s /\ no_new_send s s1 /\ tnow s1 = tnow s /\
+               term (nd s1) = term (nd s) /\ tconn (nd s1) = tconn (nd s)).
+  { subst s1. unfold upd, same_app. cbn. repeat split; auto. intros d m Hin; exact Hin. }
   set (s2 := if opt_eqb (leader (nd s1)) (Some from) then s1 else on_leader_changed s1).
-  assert (H2 : same_app (nd s) (nd s2) /\ exc s2 = exc s /\ no_new_send s s2 /\ tnow s2 = tnow s /               term (nd s2) = term (nd s) /\ tconn (nd s2) = tconn (nd s)).
+  assert (H2 : same_app (nd s) (nd s2) /\ exc s2 = exc s /\ no_new_send s s2 /\ tnow s2 = tnow s /\
+               term (nd s2) = term (nd s) /\ tconn (nd s2) = tconn (nd s)).
   { subst s2. destruct (opt_eqb _ _); auto.
     destruct H1 as (A & B & C & D & E & F).
     destruct (on_leader_changed_frame s1) as (A' & B' & C' & D' & E').
-    repeat split; try congruence.
-    - eapply same_app_trans; eauto.
-    - eapply no_new_send_trans; eauto.
-    - unfold on_leader_changed, upd. cbn.
-      set (s0 := fold_left _ _ s1).
+    split; [eapply (same_app_trans _ (nd s1)); eauto|].
+    split; [congruence|].
+    split; [eapply (no_new_send_trans _ s1); eauto|].
+    split; [congruence|]. split; [congruence|].
+    + unfold on_leader_changed, upd. cbn.
+      match goal with |- tconn (nd (fold_left ?f ?l s1)) = _ => set (s0 := fold_left f l s1) end.
       assert (Hk : tconn (nd s0) = tconn (nd s1)).
-      { subst s0. apply fold_left_keeps; auto. intros a b Ha. rewrite <- Ha.
-        unfold fire, emit. destruct (snd b); reflexivity. }
+      { subst s0. apply fold_left_keeps; auto. intros a b Ha. rewrite <- Ha. apply fire_tconn. }
       rewrite Hk. auto. }
   clearbody s2. clear H1 s1.
   set (s3 := upd (fun n => n <| leader := Some from |>) s2).
   set (s4 := if term (nd s3) <? t then upd (fun n => n <| term := t |> <| voted := None |>) s3 else s3).
-  assert (H4 : same_app (nd s) (nd s4) /\ exc s4 = exc s /\ no_new_send s s4 /\ tnow s4 = tnow s /               term (nd s4) = N.max (term (nd s)) t /\ tconn (nd s4) = tconn (nd s)).
+  assert (H4 : same_app (nd s) (nd s4) /\ exc s4 = exc s /\ no_new_send s s4 /\ tnow s4 = tnow s /\
+               term (nd s4) = N.max (term (nd s)) t /\ tconn (nd s4) = tconn (nd s)).
   { destruct H2 as (A & B & C & D & E & F).
     subst s4 s3. unfold upd, same_app in *. cbn.
     destruct (term (nd s2) <? t) eqn:Et; cbn; intuition; lia. }
@@ -307,16 +317,21 @@ Proof.
   destruct H4 as (A & B & C & D & E & F).
   destruct (set_role_frame FOLLOWER s4) as (A' & B' & C' & D' & E').
   unfold upd. cbn.
-  repeat split; try congruence.
-  - unfold same_app in *. intuition congruence.
-  - eapply no_new_send_trans; eauto.
-  - unfold set_role, upd, emit. destruct (role (nd s4) =? FOLLOWER); reflexivity.
+  split; [unfold same_app in *; cbn; intuition congruence|].
+  split; [congruence|].
+  split; [eapply (no_new_send_trans _ s4); eauto|].
+  split; [congruence|]. split; [congruence|].
+  split.
+  - unfold set_role, upd, emit. destruct (role (nd s4) =? FOLLOWER) eqn:Er; cbn; auto; lia.
   - rewrite <- F. unfold set_role, upd, emit. destruct (role (nd s4) =? FOLLOWER); reflexivity.
 Qed.
 
 Lemma set_transmission_frame : forall p s,
   let s' := fst (set_transmission p s) in
-  hist (nd s') = hist (nd s) /\ enabled_ver (nd s') = enabled_ver (nd s) /  applied (nd s') = applied (nd s) /\ log (nd s') = log (nd s) /\ commit (nd s') = commit (nd s) /  self_ver (nd s') = self_ver (nd s) /\ exc s' = exc s /\ outs s' = outs s /  term (nd s') = term (nd s) /\ tconn (nd s') = tconn (nd s).
+  hist (nd s') = hist (nd s) /\ enabled_ver (nd s') = enabled_ver (nd s) /\
+  applied (nd s') = applied (nd s) /\ log (nd s') = log (nd s) /\ commit (nd s') = commit (nd s) /\
+  self_ver (nd s') = self_ver (nd s) /\ exc s' = exc s /\ outs s' = outs s /\
+  term (nd s') = term (nd s) /\ tconn (nd s') = tconn (nd s).
 Proof.
   intros p s. unfold set_transmission. destruct p as [|b off len first last]; cbn.
   - repeat split; auto.
@@ -340,6 +355,10 @@ Qed.
 
 Lemma send_frame : forall d m s, nd (send d m s) = nd s /\ exc (send d m s) = exc s /\ tnow (send d m s) = tnow s.
 Proof. intros. unfold send, emit. destruct (smem _ _); cbn; auto. Qed.
+
+Lemma send_outs : forall d m s,
+  outs (send d m s) = if smem d (tconn (nd s)) then outs s ++ [Send d m] else outs s.
+Proof. intros. unfold send, emit. destruct (smem _ _); reflexivity. Qed.
 
 (* C09_load_restores, failure part: a dump that cannot be loaded (absent, corrupt, newer code
    version) or an incomplete transfer leaves commit, log and application state alone and
@@ -368,20 +387,45 @@ Proof.
   destruct (done && load_dump_ok s2) eqn:Ed.
   - intros H. exfalso. apply andb_true_iff in Ed. destruct Ed as [Ed1 Ed2].
     destruct H as [H|H]; [|congruence].
-    unfold load_dump_ok in Ed2, H.
+    unfold load_dump_ok in Ed2.
     destruct (stored (sr (nd s2))) as [[sn|]|] eqn:Est; try discriminate.
     assert (Hv : s_ver sn <= self_ver (nd s2)) by lia.
     destruct (load_restores e s2 sn Est Hv) as (_ & _ & _ & _ & _ & _ & _ & L1 & _ & L2 & _).
-    unfold ae_commit, upd, send_next_idx in H. cbn in H.
-    destruct (send_frame from (NextIdx (term (nd (load_dump e true s2)))
-                (last_idx (log (nd (load_dump e true s2))) + 1) false true) (load_dump e true s2))
-      as (S1 & _).
-    rewrite S1 in H.
-    match type of H with context [if commit ?n <? c then _ else _] => destruct (commit n <? c) end;
-      cbn in H; rewrite ?S1, L1, L2, Est in H; lia.
+    set (s3 := load_dump e true s2) in *.
+    unfold send_next_idx in H.
+    match type of H with context [send from ?m s3] => set (M := m) in H end.
+    destruct (send_frame from M s3) as (S1 & _).
+    unfold load_dump_ok, ae_commit, upd in H. rewrite S1 in H.
+    destruct (commit (nd s3) <? c); cbn in H; rewrite ?S1, L1, L2, Est in H; lia.
   - intros _. unfold ae_commit, upd. cbn.
     repeat split; try congruence.
     intros d m Hin. apply C. rewrite <- F8. exact Hin.
+Qed.
+
+Lemma update_cluster_term : forall new s, term (nd (update_cluster new s)) = term (nd s).
+Proof.
+  intros new s. unfold update_cluster. cbv zeta.
+  match goal with |- context [upd (fun n => n <| others := new |>) ?x] => set (s1 := x) end.
+  assert (H1 : term (nd s1) = term (nd s)).
+  { subst s1. apply fold_left_keeps; auto. }
+  set (s2 := upd (fun n => n <| others := new |>) s1).
+  match goal with |- context [fold_left ?f ?l s2] => set (F := f); set (L := l) end.
+  assert (H2 : term (nd (fold_left F L s2)) = term (nd s2)).
+  { apply fold_left_keeps; auto. }
+  rewrite H2. exact H1.
+Qed.
+
+Lemma load_dump_tconn_term : forall e s,
+  term (nd (load_dump e true s)) = term (nd s) /\
+  forall x, smem x (tconn (nd s)) = true -> dyn (cf e) = false ->
+            smem x (tconn (nd (load_dump e true s))) = true.
+Proof.
+  intros e s. unfold load_dump.
+  destruct (stored (sr (nd s))) as [[sn|]|]; auto.
+  destruct (self_ver (nd s) <? s_ver sn); auto. cbn [orb].
+  split.
+  - destruct (dyn (cf e)); [rewrite update_cluster_term|]; reflexivity.
+  - intros x Hx Hd. rewrite Hd. exact Hx.
 Qed.
 
 (* C09_load_restores, success part, as seen by the handler *)
@@ -393,8 +437,8 @@ Lemma aesnap_install : forall e from t c p s sn,
   hist (nd s') = s_hist sn /\ enabled_ver (nd s') = s_ver sn /\ applied (nd s') = eidx (s_e1 sn) /\
   log (nd s') = [s_e0 sn; s_e1 sn] /\
   commit (nd s') = (if commit (nd s) <? c then N.max (commit (nd s)) (N.min c (eidx (s_e1 sn))) else commit (nd s)) /\
-  (smem from (tconn (nd s)) = true ->
-   In (Send from (NextIdx (N.max (term (nd s)) t) (eidx (s_e1 sn) + 1) false true)) (outs s')).
+  (smem from (tconn (nd s)) = true -> dyn (cf e) = false ->
+   In (Send from (NextIdx t (eidx (s_e1 sn) + 1) false true)) (outs s')).
 Proof.
   intros e from t c p s sn Ht Hdone s'. subst s'. rewrite on_append_entries_snap_unfold.
   destruct (t <? term (nd s)) eqn:Et; [lia|].
@@ -415,22 +459,25 @@ Proof.
     destruct (stored (sr (nd s2))) as [[sn2|]|] eqn:Est; try discriminate.
     assert (Hv : s_ver sn2 <= self_ver (nd s2)) by lia.
     destruct (load_restores e s2 sn2 Est Hv) as (_ & L1 & L2 & L3 & L4 & L5 & L6 & L7 & L8 & L9 & _).
+    destruct (load_dump_tconn_term e s2) as (T1 & T2).
     set (s3 := load_dump e true s2) in *.
     unfold send_next_idx.
     match goal with |- context [send from ?m s3] => set (M := m) end.
     destruct (send_frame from M s3) as (S1 & S2 & S3).
+    pose proof (send_outs from M s3) as So.
     unfold ae_commit, upd. cbn. rewrite S1.
     intros Hst Hsv.
     assert (Hsn : sn2 = sn).
     { destruct (commit (nd s3) <? c); cbn in Hst; rewrite ?S1, L7, Est in Hst; congruence. }
     subst sn2.
     assert (Hli : last_idx (log (nd s3)) = eidx (s_e1 sn)) by (rewrite L4; reflexivity).
+    assert (HM : M = NextIdx t (eidx (s_e1 sn) + 1) false true).
+    { subst M. rewrite Hli, T1, F9, E. f_equal. lia. }
     rewrite Hli, L6, F5, A5.
-    destruct (commit (nd s) <? c) eqn:Ec; cbn; rewrite ?S1; repeat split; auto.
-    all: intros Hconn; unfold send; rewrite S1 || idtac.
-    all: assert (Htc : tconn (nd s3) = tconn (nd s)).
-    all: try (subst s3; unfold load_dump; rewrite Est;
-              destruct (self_ver (nd s2) <? s_ver sn) eqn:Ev; [lia|]; cbn [orb]).
+    assert (Hsend : smem from (tconn (nd s)) = true -> dyn (cf e) = false ->
+                    In (Send from (NextIdx t (eidx (s_e1 sn) + 1) false true)) (outs (send from M s3))).
+    { intros Hc Hdyn. rewrite So, T2, HM; auto; [|congruence]. apply in_or_app. right. left. reflexivity. }
+    destruct (commit (nd s) <? c) eqn:Ec; cbn; rewrite ?S1; repeat split; auto; try congruence.
   - intros Hst Hsv. exfalso. unfold ae_commit, upd in Hst. cbn in Hst.
     unfold load_dump_ok in Eok. rewrite Hst in Eok. lia.
-Admitted.
+Qed.
